@@ -967,6 +967,11 @@ def iter_moral_links(graph: NxMixedGraph) -> Iterable[tuple[Variable, Variable]]
     yield from chain.from_iterable(
         combinations(graph.directed.predecessors(node), 2) for node in graph.nodes()
     )
+    # A bidirected edge stands for a latent common parent, so all nodes of a district
+    # and all of their parents are pairwise connected by collider paths.
+    for district in graph.districts():
+        if len(district) > 1:
+            yield from combinations(district | graph.get_markov_pillow(district), 2)
 
 
 def get_nodes_in_directed_paths(
